@@ -24,7 +24,8 @@ RULE = (
     "exchanged or relabelled ids, moved rows, bin gaps, wrong n_bins, dtype, "
     "shape) and recovered through validate / from_str / Packing.from_log. "
     "Non-trivial = at least one fault actually changed the stored form; distinct "
-    "= distinct scenario-document digests.")
+    "= distinct scenario-document digests."
+    " Thread scenarios: two caller threads validate at the same time (one shared PackingSpace or an instance and a space each), released one at a time at line events of the repository code by the scenario's schedule; non-trivial = at least one switch happened.")
 COMPONENTS = {
     "real": ["PackingSpace.validate / to_str / from_str / create / is_equal",
              "Packing, Packing.from_log, _PackingParser",
